@@ -21,6 +21,14 @@ Definition sample_of (w : world) : sample :=
 Definition sample_eqb (a b : sample) : bool :=
   olabel_eqb (fst (fst a)) (fst (fst b)) && Bool.eqb (snd (fst a)) (snd (fst b)) && ostr_eqb (snd a) (snd b).
 
+(* the final observation of Corr_Life without the number of ready loop callbacks: the loop of the remotely controlled
+   process also holds the communication plumbing, and the count is an internal of M1 that C16 says nothing about *)
+Definition c16_final_eqb (a b : final_obs) : bool :=
+  label_eqb (fo_state a) (fo_state b) && pfstate_eqb (fo_future a) (fo_future b)
+  && Bool.eqb (fo_paused a) (fo_paused b) && ostr_eqb (fo_status a) (fo_status b)
+  && t0status_eqb (fo_t0 a) (fo_t0 b) && list_eqb afut_eqb (fo_actions a) (fo_actions b)
+  && Bool.eqb (fo_killing a) (fo_killing b) && Bool.eqb (fo_closed a) (fo_closed b).
+
 (* an event that finds its queue empty did not happen the way the harness says *)
 Definition stuck (xw : xworld) (e : xevent) : bool :=
   match e with
@@ -78,7 +86,7 @@ Definition c16_ok (c : C16_case) : bool :=
   | None, None => true
   | Some o, Some f =>
       list_eqb event_eqb (o_trace o) (cc_trace c)
-      && match o_final o with Some f' => final_eqb f' f | None => false end
+      && match o_final o with Some f' => c16_final_eqb f' f | None => false end
       && list_eqb sample_eqb (o_samples o) (cc_samples c)
       && list_eqb reply_eqb (o_replies o) (cc_replies c)
       && list_eqb String.eqb (o_attempted o) (cc_attempted c)
